@@ -8,9 +8,11 @@ spec/Determinism/Gen_Determinism.tla (case generation).
 
 Flow
  1. TLC checks Determinism with Layer="A" (every site a function of its key set): Deterministic holds under all walk orders,
-    schedules, directory names and previous contents.  With Layer="B" (sites as transcribed from thriftgo) TLC shows that
-    executions diverge only where the table says a site leaks its walk order and reports every pair it found diverging
-    executions for; the check requires that this set equals the Leaky pairs (consistency of the model with itself).
+    schedules, directory names and previous contents.  With Layer="B" (sites as transcribed from thriftgo as it is now) and
+    Layer="P" (as transcribed from the pinned commit, before the three leaks this check found were repaired) TLC shows that
+    executions diverge only where the layer's table says a site leaks its walk order and reports every pair it found diverging
+    executions for; the check requires that this set equals the table's leaky pairs (consistency of the model with itself;
+    for B that set is empty now, for P it is the 83 pairs of the quick universe the real binary used to diverge on).
  2. TLC enumerates the (feature vector, configuration) universe and emits the cases with the key counts per site.
  3. Python turns each feature vector into a concrete program (lib/idl.py), re-derives the key counts from the program and
     requires them to equal the spec's (binding of the feature vector to the program).
@@ -455,6 +457,7 @@ def case_id(c):
 def norm_case(c):
     c["cfg"]["opts"] = sorted(c["cfg"]["opts"])
     c["leaky"] = sorted(c["leaky"])
+    c["leaky_pinned"] = sorted(c.get("leaky_pinned", []))
     c["objects"] = sorted(c["objects"])
     c["reached"] = sorted(c["reached"], key=lambda r: r["site"])
     c["id"] = case_id(c)
@@ -484,24 +487,27 @@ DYN_NAMES = {"go", "go+reflection", "fastgo+no_fmt", "go/dump", "go+reflection/p
 FULL_NAMES = {"go+reflection", "fastgo+no_fmt", "go/dump"}      # MC_Determinism!CfgFull
 PROG_WEIGHTS = {"ProgsW1": {0, 1}, "ProgsW1Low": {0, 1}, "ProgsW2": {0, 1, 2}, "ProgsFull": {99}}
 MC_RUNS = {
-    "quick": [dict(layer="A", progs="ProgsW1Low", cfgs="CfgDyn", perm=2, jobs=2, stale="StaleBoth"),
-              dict(layer="B", progs="ProgsW1Low", cfgs="CfgDyn", perm=2, jobs=2, stale="StaleBoth")],
+    "quick": [dict(layer="B", progs="ProgsW1Low", cfgs="CfgDyn", perm=2, jobs=2, stale="StaleBoth"),
+              dict(layer="P", progs="ProgsW1Low", cfgs="CfgDyn", perm=2, jobs=2, stale="StaleBoth")],
     "thorough": [dict(layer="A", progs="ProgsW1", cfgs="CfgQuick", perm=2, jobs=2, stale="StaleBoth"),
                  dict(layer="B", progs="ProgsW1", cfgs="CfgQuick", perm=2, jobs=2, stale="StaleBoth"),
-                 dict(layer="A", progs="ProgsW1Low", cfgs="CfgDyn", perm=3, jobs=2, stale="StaleBoth"),
+                 dict(layer="P", progs="ProgsW1", cfgs="CfgQuick", perm=2, jobs=2, stale="StaleBoth"),
                  dict(layer="B", progs="ProgsW1Low", cfgs="CfgDyn", perm=3, jobs=2, stale="StaleBoth"),
-                 dict(layer="A", progs="ProgsW1Low", cfgs="CfgDyn", perm=2, jobs=3, stale="StaleAny"),
+                 dict(layer="P", progs="ProgsW1Low", cfgs="CfgDyn", perm=3, jobs=2, stale="StaleBoth"),
                  dict(layer="B", progs="ProgsW1Low", cfgs="CfgDyn", perm=2, jobs=3, stale="StaleAny"),
-                 dict(layer="A", progs="ProgsW2", cfgs="CfgDyn", perm=2, jobs=2, stale="StaleBoth"),
+                 dict(layer="P", progs="ProgsW1Low", cfgs="CfgDyn", perm=2, jobs=3, stale="StaleAny"),
                  dict(layer="B", progs="ProgsW2", cfgs="CfgDyn", perm=2, jobs=2, stale="StaleBoth"),
-                 dict(layer="B", progs="ProgsFull", cfgs="CfgFull", perm=2, jobs=2, stale="StaleBoth")],
+                 dict(layer="P", progs="ProgsW2", cfgs="CfgDyn", perm=2, jobs=2, stale="StaleBoth"),
+                 dict(layer="P", progs="ProgsFull", cfgs="CfgFull", perm=2, jobs=2, stale="StaleBoth")],
 }
 
 
 def model_check(ctx, cases_by_key):
-    """step 1: the two-execution machine.  Returns number of (p, cfg) pairs TLC found diverging executions for."""
+    """step 1: the two-execution machine.  Layer A: Deterministic.  Layers B (thriftgo as it is) and P (thriftgo at the
+    pinned commit): TLC finds diverging executions exactly for the pairs the layer's table calls leaky, in exactly the
+    objects the leaky sites belong to (consistency of the model with itself).  Returns {layer: number of diverging pairs}."""
     persist = os.path.join(vlib.VERIF, "spec", "Persist", "PersistSpec.tla")
-    total_div = 0
+    total = {"B": 0, "P": 0}
     for k, r in enumerate(MC_RUNS[ctx.tier]):
         inv = "Deterministic" if r["layer"] == "A" else "DivergesOnlyWhereLeaky ReportDivergence"
         cfg = MC_CFG % dict(r, inv=inv)
@@ -510,35 +516,37 @@ def model_check(ctx, cases_by_key):
                           r["layer"], r["progs"], r["cfgs"], r["perm"], r["jobs"]))
         if r["layer"] == "A":
             continue
+        lk = "leaky" if r["layer"] == "B" else "leaky_pinned"
         div = {}
         for s in res["lines"]:
             if s.startswith("DIVERGE "):
                 d = json.loads(s[8:])
                 div.setdefault((d["cfg"], pkey(d["p"])), set()).update(d["objs"])
-        # model self-consistency: TLC found diverging executions exactly for the pairs the table calls leaky,
-        # and in exactly the objects the leaky sites belong to
         for (cn, pk), objs in div.items():
             c = cases_by_key.get((cn, pk))
             if c is None:
                 continue
-            want = set(c["leaky_objects"])
+            want = set(site_objects(c[lk]))
             if objs != want:
-                raise vlib.MachineryError("model inconsistency: TLC diverges in %s but Leaky says %s for %s %s" % (
-                    sorted(objs), sorted(want), cn, pk))
-        # ... and for every leaky pair of the explored sets
+                raise vlib.MachineryError("model inconsistency (layer %s): TLC diverges in %s but the table says %s for %s %s" % (
+                    r["layer"], sorted(objs), sorted(want), cn, pk))
         for (cn, pk), c in cases_by_key.items():
             if r["progs"] == "ProgsW1Low" and 8 in [c["p"][f] for f in ("ann", "ns", "mapConst", "mapDefault", "inc", "defs")]:
                 continue
             if r["cfgs"] == "CfgFull" and cn not in FULL_NAMES:
                 continue
             if c["weight"] in PROG_WEIGHTS[r["progs"]] and (r["cfgs"] == "CfgQuick" or cn in DYN_NAMES) \
-                    and c["cfg"]["name"] != "s" and c["leaky"] and (cn, pk) not in div:
-                raise vlib.MachineryError("model inconsistency: Leaky = %s but TLC found no diverging executions for %s %s"
-                                          % (c["leaky"], cn, pk))
-        total_div += len(div)
-        if not div:
-            raise vlib.MachineryError("vacuous: layer B model never diverges")
-    return total_div
+                    and c["cfg"]["name"] != "s" and c[lk] and (cn, pk) not in div:
+                raise vlib.MachineryError("model inconsistency (layer %s): the table says %s leak but TLC found no diverging "
+                                          "executions for %s %s" % (r["layer"], c[lk], cn, pk))
+        total[r["layer"]] += len(div)
+    if total["P"] == 0:
+        raise vlib.MachineryError("vacuous: the model of the pinned commit never diverges")
+    return total
+
+
+def site_objects(sites):
+    return sorted({SITE_OBJECT.get(s.split(".")[0], "tree") for s in sites})
 
 
 REPLACER_CFG = """SPECIFICATION RSpec
@@ -664,7 +672,7 @@ def run(ctx, args):
             cases = [c for c in cases if c["cfg"]["name"] in dev.split(",")]
             ctx.notes.append("C07_DEV_CONFIGS=%s: universe restricted to these configurations" % dev)
     for c in cases:
-        c["leaky_objects"] = sorted({SITE_OBJECT.get(s.split(".")[0], "tree") for s in c["leaky"]})
+        c["leaky_objects"] = site_objects(c["leaky"])
     by_key = {(c["cfg"]["name"], pkey(c["p"])): c for c in cases}
 
     # step 3: bind feature vectors to concrete programs
@@ -685,7 +693,8 @@ def run(ctx, args):
         futs = [pool.submit(runner.run_case, c) for c in cases]
         if not args.replay and not os.environ.get("C07_DEV_CONFIGS"):
             ndiv = model_check(ctx, by_key)
-            ctx.extra_cov["model_pairs_with_diverging_executions"] = ndiv
+            ctx.extra_cov["model_pairs_with_diverging_executions"] = {
+                "layer_B_thriftgo_as_it_is": ndiv["B"], "layer_P_thriftgo_at_the_pinned_commit": ndiv["P"]}
             replacer_conformance(ctx)
         results = [f.result() for f in futs]
     finally:
@@ -723,7 +732,7 @@ def run(ctx, args):
         for d in res["diffs"]:
             vcls = {"check": "C07." + ("stdin" if d["object"] == "stdin" else "tree"), "kind": d["kind"], "object": d["object"]}
             case = {"cfg": c["cfg"], "p": c["p"], "n": n, "keys": c["keys"], "reached": c["reached"], "leaky": c["leaky"],
-                    "risky": c["risky"], "weight": c["weight"], "names": c["names"], "files": c["files"],
+                    "leaky_pinned": c["leaky_pinned"], "risky": c["risky"], "weight": c["weight"], "names": c["names"], "files": c["files"],
                     "objects": c["objects"]}
             ctx.violation(vcls, case,
                           {"path": d["path"], "how_the_differing_execution_ran": d["how"], "first_difference": d["detail"],
